@@ -29,7 +29,7 @@ type World struct {
 	Contracts map[string]*Contract // pkgpath + "::" + key
 	Preds     map[string]*PredDef  // pkgpath + "::" + name
 	Frames    []*FrameDecl
-	TypeInvs  map[string]*TypeInv // qualified type name -> invariant
+	TypeInvs  map[string]*TypeInv    // qualified type name -> invariant
 	Ghosts    map[string]*GhostField // pkgpath.Type.$name
 	Axioms    []*AxiomDecl
 	SpecFiles []*SpecFile
